@@ -273,6 +273,7 @@ type c05World struct {
 	run    func(*gorm.DB) error
 	tables []string
 	ctl    *c05StageCtl
+	snap   bool
 }
 
 func (w *c05World) Close() {
@@ -303,6 +304,7 @@ func c05BuildS(op c05Op, seed int64, where string, stages bool) *c05World {
 	}
 	w := &c05World{where: where, db: db, rec: rec, sqlDB: sqlDB, keep: keep, tables: tables, ctl: ctl}
 	w.run = op.Setup(db, rng)
+	w.snapshot()
 	if stages {
 		atomic.StoreInt32(&ctl.on, 1)
 	}
@@ -641,10 +643,10 @@ func c05ErrsFor(ev Event, rng *rand.Rand, tier string) []c05NamedErr {
 			}
 			out = append(out, e)
 		}
-		if tier == "quick" && len(out) > 8 {
+		if tier == "quick" && len(out) > 6 {
 			// generic + a rotating window over the sentinels: every value is reached within a few graphs
 			rng.Shuffle(len(out)-1, func(i, j int) { out[i+1], out[j+1] = out[j+1], out[i+1] })
-			out = out[:8]
+			out = out[:6]
 		}
 		return out
 	}
@@ -680,14 +682,17 @@ func c05TrialsFor(ev Event, rng *rand.Rand, tier string) []c05Trial {
 	switch ev.Kind {
 	case "rows_next":
 		// io.EOF from Next IS the end of the rows, not a failure
-		ts := []c05Trial{{"inject", "generic"}}
-		if rng.Intn(2) == 0 || tier != "quick" {
-			ts = append(ts, c05Trial{"inject", drawn("io.EOF", "generic")})
+		if tier == "quick" {
+			ts := []c05Trial{{"inject", "generic"}}
+			if rng.Intn(2) == 0 {
+				ts[0].err = drawn("io.EOF", "generic")
+			}
+			if i, _ := ev.Args[0].(int); i == 0 {
+				ts = append(ts, []c05Trial{{"cancel", ""}, {"inject-post", "generic"}}[rng.Intn(2)])
+			}
+			return ts
 		}
-		if i, _ := ev.Args[0].(int); i == 0 || tier != "quick" {
-			ts = append(ts, c05Trial{"cancel", ""}, c05Trial{"inject-post", "generic"})
-		}
-		return ts
+		return []c05Trial{{"inject", "generic"}, {"inject", drawn("io.EOF", "generic")}, {"cancel", ""}, {"inject-post", "generic"}}
 	case "rows_close", "res_rows", "res_lastid":
 		ts := []c05Trial{{"inject", "generic"}}
 		if tier != "quick" {
@@ -702,6 +707,14 @@ func c05TrialsFor(ev Event, rng *rand.Rand, tier string) []c05Trial {
 	switch ev.Kind {
 	case "exec", "query", "stmt_exec", "stmt_query":
 		ts = append(ts, c05Trial{"inject-post", "generic"})
+		if tier == "quick" {
+			// generic always; of {cancel, drawn value, post} two per call
+			drop := 1 + rng.Intn(3)
+			if drop == 1 {
+				drop = 0
+			}
+			ts = append(ts[:drop], ts[drop+1:]...)
+		}
 	}
 	return ts
 }
@@ -714,6 +727,11 @@ func c05FaultSuite(r *Result, rng *rand.Rand, tier string) {
 		graphs = 10
 	}
 	ops := append(c05Ops(), c05SOps()...)
+	t0 := time.Now()
+	worlds, rebuilds, restores := 0, 0, 0
+	defer func() {
+		r.Note("fault suite: %d worlds, %d table restores and %d rebuilds after an applied/violating run, %.1fs", worlds, restores, rebuilds, time.Since(t0).Seconds())
+	}()
 	for g := 0; g < graphs && !expired(); g++ {
 		for oi, op := range ops {
 			seed := rng.Int63()
@@ -728,7 +746,13 @@ func c05FaultSuite(r *Result, rng *rand.Rand, tier string) {
 			}
 			w := c05BuildS(op, seed, where, true)
 			dump0 := w.dump()
+			worlds++
 			rebuild := func() {
+				if o, i := w.quiesce(); o == 0 && i == 0 && w.restore() == nil && reflect.DeepEqual(dump0, w.dump()) {
+					restores++
+					return
+				}
+				rebuilds++
 				w.Close()
 				w = c05BuildS(op, seed, where, true)
 				dump0 = w.dump()
@@ -814,13 +838,14 @@ func c05FaultSuite(r *Result, rng *rand.Rand, tier string) {
 			}
 			// genuine failures raised by the database while a statement is stepped: the n-th row written to each
 			// table the operation touches is refused by that table's trigger
-			pairs, _ := c05Touched(pevs)
+			pairs, rowsOf := c05Touched(pevs)
 			maxN := 3
 			if tier != "quick" {
 				maxN = 6
 			}
 			for _, p := range pairs {
-				for n := 1; n <= maxN; n++ {
+				// n beyond the rows the operation writes to the table never fires (and costs a fresh world)
+				for n := 1; n <= maxN && n <= rowsOf[p]; n++ {
 					sc := c05Scenario{Op: op.Name, Seed: seed, Where: where, Mech: "trigger", Table: p[0], TrigOp: p[1], N: n, Stages: true}
 					o := c05RunOne(w, sc, dump0, applied)
 					sc.Event = trunc(o.FaultEv.SQL, 80)
